@@ -44,6 +44,17 @@ func RespellFloats(text []byte, mode int) []byte {
 }
 
 func respell(tok string, mode int) string {
+	if mode == 4 {
+		// a fraction part of zeros: an integer literal becomes a float literal of the same value
+		// (1 -> 1.0), a fraction gets one more zero
+		switch {
+		case !strings.ContainsAny(tok, ".eE"):
+			return tok + ".0"
+		case !strings.ContainsAny(tok, "eE"):
+			return tok + "0"
+		}
+		return tok
+	}
 	if !strings.ContainsAny(tok, ".eE") {
 		return tok
 	}
